@@ -226,7 +226,13 @@ func (c *Ctx) RunCases(bin string, cases []*DCase, workers int, env []string) ([
 		for i, cs := range pending {
 			arr[i] = cs
 		}
-		stderr, timedOut, err := c.W.RunDriver(bin, arr, workers, env, 30*time.Minute, func(line []byte) error {
+		// the driver stops hanging cases by CPU time itself; the wall-clock limit only guards
+		// against a driver that blocks without using the CPU, and must not fire on a loaded machine
+		wall := 30 * time.Minute
+		if c.Thorough() {
+			wall = 150 * time.Minute
+		}
+		stderr, timedOut, err := c.W.RunDriver(bin, arr, workers, env, wall, func(line []byte) error {
 			r := new(DResult)
 			if err := json.Unmarshal(line, r); err != nil {
 				return err
